@@ -278,6 +278,19 @@ func checkC20On(c *Ctx, p *Prog, cfg string) {
 					}
 				}
 			})
+			// a deferred unlock runs at return only: the same lock taken again
+			// before a direct unlock (a lock inside a loop released by defer,
+			// or two lock sites in a row) blocks on itself
+			relock := pathAvoiding(f, in, func(x ssa.Instruction) bool {
+				pp, o, ok := lockOp(x)
+				return ok && pp == path && (o == 'L' || (o == 'R' && op == 'L'))
+			}, func(x ssa.Instruction) bool {
+				pp, o, ok := lockOp(x)
+				return ok && pp == path && (o == 'U' || o == 'u')
+			})
+			if relock != nil {
+				r.Bad("C20.lock-pairing", key+":relock", p.IPos(in), "the lock can be taken again ("+p.IPos(relock)+") before it is released — a deferred unlock only runs when the function returns: the second acquisition blocks forever")
+			}
 			r.Check((miss == nil || deferredBefore) && modeOK, "C20.lock-pairing", key, p.IPos(in), "released on every path with the matching unlock", "a lock is not released on every path of the function that takes it (or is released with the wrong unlock): the next locker deadlocks")
 		})
 	}
